@@ -1,0 +1,38 @@
+//go:build verif
+
+package seat_manager
+
+import "encoding/json"
+
+// Verification instrumentation (build tag "verif").
+
+// VerifHook, when set, is called at named points inside seat-manager mutators
+// (while sm.mu is held). It may block.
+var VerifHook func(sm SeatManager, point string)
+
+func verifHook(sm *seatManager, point string) {
+	if fn := VerifHook; fn != nil {
+		fn(sm, point)
+	}
+}
+
+// VerifRestore builds a seat manager from the JSON form of its state
+// (the same form printState logs).
+func VerifRestore(data []byte) (SeatManager, error) {
+	sm := &seatManager{}
+	if err := json.Unmarshal(data, sm); err != nil {
+		return nil, err
+	}
+	for i := 0; i < sm.MaxSeat; i++ {
+		if _, ok := sm.SeatData[i]; !ok {
+			sm.SeatData[i] = nil
+		}
+	}
+	return sm, nil
+}
+
+// VerifDump returns the JSON form of the state.
+func VerifDump(sm SeatManager) []byte {
+	b, _ := json.Marshal(sm.(*seatManager))
+	return b
+}
